@@ -81,6 +81,17 @@ def programs(w) -> Any:
                                     members.append(gen.make_member(ids, rng, kind, base, is_async, npre_l,
                                                                    n_post if level == len(shape) - 1 else 0,
                                                                    n_snap if level == len(shape) - 1 else 0))
+                                    if kind not in ("init", "new") and level > 0 and npre_l and rng.random() < 0.3:
+                                        # the override applies a precondition decorator OBJECT of an ancestor again (one contract
+                                        # listed in two groups: each group still is the conjunction of all its members)
+                                        pool = [d for c in classes if c["name"] in prev for bm in c["members"] if bm["name"] == members[-1]["name"]
+                                                and bm["kind"] == members[-1]["kind"] for d in bm["decos"]
+                                                if d[0] == "pre" and d[1].get("form") in ("def", "lambda") and not d[1].get("via_helper")]
+                                        if pool:
+                                            picked = rng.choice(pool)
+                                            picked[1]["shared"] = True
+                                            picked[1]["form"] = "def"
+                                            members[-1]["decos"].insert(rng.randint(0, len(members[-1]["decos"])), picked)
                                     if kind not in ("init", "new") and members[-1]["decos"] and rng.random() < 0.2:
                                         # a foreign functools.wraps decorator above the contracts: the checker is not the
                                         # outermost object of the stack any more
